@@ -63,7 +63,7 @@ def run_model_case(spec, keys):
     CUR["family"] = spec["family"]
     rng = rng_for(spec["seed"], ID, spec["n"])
     tz = spec["tz"]
-    bdf = fam.baseline_frame(rng, tz=tz, days=365)
+    bdf = fam.baseline_frame(rng, tz=tz, days=spec.get("baseline_days", 365))
     if spec.get("poor_fit"):
         # usage unrelated to weather: the model adds its own poor-fit disqualification during fit
         col = bdf["observed"]
@@ -94,8 +94,9 @@ def run_model_case(spec, keys):
     sets = {}
     start0 = pd.Timestamp("2019-01-01") + pd.Timedelta(days=int(rng.integers(0, 200)))
     for name, days in SPANS.items():
+        st_year = str((start0 + pd.Timedelta(days=int(rng.integers(0, 300)))).date())
         for obs in (True, False):
-            st = str((start0 + pd.Timedelta(days=int(rng.integers(0, 300)))).date())
+            st = st_year if name == "year" else str((start0 + pd.Timedelta(days=int(rng.integers(0, 300)))).date())
             sets[(name, obs)] = fam.reporting_frame(rng, tz, st, days, with_observed=obs)
             if fam.kind == "hourly" and not fam.ghi and name in ("week", "month"):
                 # reporting data carrying irradiance for a model fitted without it (the model emits a mismatch notice)
@@ -106,7 +107,7 @@ def run_model_case(spec, keys):
     if ("year", True) not in order:
         order.append(("year", True))
     if fam.kind == "hourly":
-        order = [("week", False), ("year", True)] + order           # a short set first: a history that matters
+        order = [("week", False), ("year", True), ("year", False), ("year", True)] + order     # short set first; same calendar with/without usage
     ref_cache = {}
     for step, key in enumerate(order):
         rdf = sets[key]
@@ -124,8 +125,13 @@ def run_model_case(spec, keys):
         try:
             p = fam.predict(m, rdata)
         except Exception as e:
-            add("predict-raised:%s:%s:%s" % (fam.kind, type(e).__name__, "without-observed" if not key[1] else "with-observed"),
-                "predict on a %s reporting set (%s usage) raised %s: %s" % (key[0], "with" if key[1] else "without", type(e).__name__, str(e)[:160]))
+            # an exception is not a side effect: whether predict may refuse this input is C04/C06's business; what C02 still
+            # judges is that the failed call left the model and the data object unchanged
+            I.reach("predict.raised_not_judged_here")
+            if js0 is not None and model_json(fam, m) != js0:
+                add("failed-predict-changed-serialised-model:" + fam.kind, "a predict call that raised %s left the model changed" % type(e).__name__)
+            if data_fp(rdata) != rd_before:
+                add("failed-predict-modified-data-object:" + fam.kind, "a predict call that raised %s left the reporting data object changed" % type(e).__name__)
             continue
         I.reach("data.predict_fingerprint")
         rd_after = data_fp(rdata)
@@ -247,6 +253,11 @@ def gen_cases(tier, seed):
     cases = [dict(kind="model", family=f, tz=zones[i % len(zones)], length=3 if q else 8, n=i, timeout=3000) for i, f in enumerate(fams)]
     poor = ["daily:current", "hourly:default"] if q else ["daily:current", "daily:legacy", "billing", "hourly:default", "hourly:default:ghi"]
     cases += [dict(kind="model", family=f, tz=zones[(i + 1) % len(zones)], length=2, poor_fit=True, n=100 + i, timeout=3000) for i, f in enumerate(poor)]
+    # partial-year hourly baselines: the reporting year contains (month, weekday) cells the model never saw, whose treatment
+    # depends on the reporting set - the place where state can leak between predicts
+    part = ["hourly:default"] if q else ["hourly:default", "hourly:default:ghi", "hourly:robust", "hourly:clusters6"]
+    cases += [dict(kind="model", family=f, tz=zones[(i + 2) % len(zones)], length=3 if q else 8, baseline_days=[170, 120, 200, 90][i % 4], n=200 + i, timeout=3000)
+              for i, f in enumerate(part)]
     cases += [dict(kind="ctor", tz=zones[i % len(zones)], n=i) for i in range(2 if q else 8)]
     return cases
 
